@@ -193,7 +193,11 @@ def translate(repo):
             raise Broken('is_escape')
         mm = re.fullmatch(r"ch == (b'.+?') \|\| ch == (b'.+?') \|\| \(including_control_characters && ch < (0x[0-9A-Fa-f]+)\)", squeeze(m.group(1)))
         if not mm:
-            raise Broken('is_escape body: ' + squeeze(m.group(1)))
+            # the same predicate spelled `matches!(ch, b'"' | b'\\') || (including_control_characters && ch <= 0x1F)` (or with `<`)
+            m2 = re.fullmatch(r"matches!\(ch, (b'.+?') \| (b'.+?')\) \|\| \(including_control_characters && ch (<=?) (0x[0-9A-Fa-f]+)\)", squeeze(m.group(1)))
+            if not m2:
+                raise Broken('is_escape body: ' + squeeze(m.group(1)))
+            return [byte_lit(m2.group(1)), byte_lit(m2.group(2)), int(m2.group(4), 16) + (1 if m2.group(3) == '<=' else 0)]
         return [byte_lit(mm.group(1)), byte_lit(mm.group(2)), int(mm.group(3), 16)]
     item('IS_ESCAPE', is_escape)
 
